@@ -7,11 +7,12 @@ Model of poly/transform/codon `Translate` and `generateTranslationTable` (C06), 
       if len(StartCodons) == 0 && len(StopCodons) == 0 && len(AminoAcids) == 0 { return "", errEmtpyCodonTable }
       if len(sequence) == 0 { return "", errEmtpySequenceString }
       translationTable := codonTable.generateTranslationTable()   // map[triplet]letter, amino acids then codons
+      currentCodonLetters := 0
       for _, letter := range sequence {                           // RUNE loop
-          currentCodon.WriteRune(letter)
-          if currentCodon.Len() == 3 {                            // Len() counts BYTES
+          currentCodon.WriteRune(letter); currentCodonLetters++
+          if currentCodonLetters == 3 {                           // letters, not bytes (/repo 053f18d)
               aminoAcids.WriteString(translationTable[strings.ToUpper(currentCodon.String())])  // missing key -> ""
-              currentCodon.Reset()
+              currentCodon.Reset(); currentCodonLetters = 0
           }
       }
       return aminoAcids.String(), nil
@@ -20,9 +21,13 @@ Model of poly/transform/codon `Translate` and `generateTranslationTable` (C06), 
 Modelling notes
 * a Go map filled by a sequence of writes is the list of writes in order; reading a key returns the LAST
   write to it (`mapGet`); a missing key reads as the zero value `""` (Go semantics, not a convenience default).
-* `strings.Builder.Len` after `WriteRune` is the UTF-8 byte length: `byteLen` sums `Char.utf8Size`, so the
-  rune/byte mismatch of the code on non-ASCII input is in the model.  `strings.ToUpper` is modelled by
-  `Char.toUpper`, which is right on ASCII only: the theorems carry the hypothesis `Ascii s`.
+* codons are framed by LETTERS (runes): the buffer is translated when it holds three letters, whatever their
+  byte length (since /repo 053f18d; before, `Len() == 3` counted bytes).  So the framing needs no ASCII hypothesis.
+* `strings.ToUpper` is modelled by `Char.toUpper`, which is Go's mapping on ASCII only.  This is the one ASCII
+  assumption left, and it cannot matter for a table whose triplets are over A/C/G/T: no letter outside ASCII is
+  upper-cased to A, C, G or T by Unicode (the only non-ASCII letters with an ASCII upper case are ı → I and ſ → S),
+  so a codon holding such a letter is in no such table under either mapping and reads as "".
+* `len(sequence) == 0` is a byte length: `byteLen` (it is 0 exactly for the empty string).
 * The amino-acid order of a default table is the iteration order of a Go map; for a table that lists no
   triplet twice the translation map does not depend on it (Props/C06 `mapGet_of_nodup`).
 -/
@@ -53,7 +58,7 @@ def mapGetStr (m : List (Str × Str)) (key : Str) : Str :=
   | some v => v
   | none => []
 
-/-- `strings.Builder.Len()` of a builder that received the runes of `s` through `WriteRune` -/
+/-- `len(s)` of a Go string: its UTF-8 byte length -/
 def byteLen (s : Str) : Nat := (s.map Char.utf8Size).sum
 
 /-- one iteration of the loop; state = (currentCodon, aminoAcids).  The `aminoAcids` builder is kept with its
@@ -61,7 +66,7 @@ most recently written character FIRST (a write prepends the reversed string), so
 length of what is written; `translateCore` reverses it once at the end. -/
 def step (m : List (Str × Str)) (st : Str × Str) (letter : Char) : Str × Str :=
   let buf := st.1 ++ [letter]
-  if byteLen buf = 3 then ([], (mapGetStr m (upper buf)).reverse ++ st.2) else (buf, st.2)
+  if buf.length = 3 then ([], (mapGetStr m (upper buf)).reverse ++ st.2) else (buf, st.2)
 
 def translateLoop (m : List (Str × Str)) (st : Str × Str) (s : Str) : Str × Str := s.foldl (step m) st
 
